@@ -117,7 +117,7 @@ impl Gen {
                 "write_env" => o.arg.env = if r.u32(..5) == 0 { "none".into() } else { pick(r, &env_toks).into() },
                 "write_sboms" => o.arg.sbom = sbom3(r, &sboms, 0.4),
                 // (now and then one of the programs does not exist: the call fails and changes nothing)
-                "write_exec_d" => { o.arg.execd = subset(r, &execs); if r.u32(..4) == 0 { o.arg.execd.insert("gone".into()); } }
+                "write_exec_d" => { o.arg.execd = subset(r, &execs); if r.u32(..4) == 0 { o.arg.execd.insert(if r.bool() { "gone" } else { "dangling" }.into()); } }
                 "write_file" => o.arg.file = pick(r, &files).into(),
                 _ => {}
             }
